@@ -484,6 +484,40 @@ func (g *gen) sessions(nRandom int) {
 	for _, s := range g.shortV(5, 5) {
 		g.session("sess:V-short-"+s.vShort, s)
 	}
+	// h) special relations between long-term and ephemeral keys (both roles of each session are emitted):
+	//    d = xbar(R.x)*r  -> P = [xbar]R: the PEER adds two equal points (doubling inside P + [xbar]R); must agree
+	//    d = -xbar(R.x)*r -> P = -[xbar]R: t = 0 on the own side and P + [xbar]R = O on the peer's side: both must refuse
+	//    equal long-term keys, equal ephemerals, R = P, R = -P, long-term key of one side = ephemeral of the other, tiny scalars
+	xr := func(r *big.Int) *big.Int { rx, _ := baseMul(r); return mulmod(hat(rx), r, cN) }
+	neg := func(v *big.Int) *big.Int { return new(big.Int).Sub(cN, v) }
+	rel := func(tag string, f func(s *sess)) {
+		s := g.rndSmall()
+		f(&s)
+		g.session("sess:rel:"+tag, s)
+	}
+	rel("dA=xbar(RA)rA", func(s *sess) { s.k[0] = xr(s.k[2]) })
+	rel("dB=xbar(RB)rB", func(s *sess) { s.k[1] = xr(s.k[3]) })
+	rel("dA=xbar(RA)rA,dB=xbar(RB)rB", func(s *sess) { s.k[0], s.k[1] = xr(s.k[2]), xr(s.k[3]) })
+	rel("dA=-xbar(RA)rA", func(s *sess) { s.k[0] = neg(xr(s.k[2])) })
+	rel("dB=-xbar(RB)rB", func(s *sess) { s.k[1] = neg(xr(s.k[3])) })
+	rel("dA=dB", func(s *sess) { s.k[1] = s.k[0] })
+	rel("rA=rB", func(s *sess) { s.k[3] = s.k[2] })
+	rel("dA=dB,rA=rB", func(s *sess) { s.k[1], s.k[3] = s.k[0], s.k[2] })
+	rel("rA=dA", func(s *sess) { s.k[2] = s.k[0] })
+	rel("rB=dB", func(s *sess) { s.k[3] = s.k[1] })
+	rel("rA=-dA", func(s *sess) { s.k[2] = neg(s.k[0]) })
+	rel("rB=-dB", func(s *sess) { s.k[3] = neg(s.k[1]) })
+	rel("rA=dB", func(s *sess) { s.k[2] = s.k[1] })
+	rel("rB=-dA", func(s *sess) { s.k[3] = neg(s.k[0]) })
+	rel("all-equal", func(s *sess) { s.k[1], s.k[2], s.k[3] = s.k[0], s.k[0], s.k[0] })
+	for _, t := range [][4]int64{{1, 1, 1, 1}, {1, 2, 1, 2}, {2, 1, 3, 1}, {1, 2, 3, 4}, {3, 3, 2, 2}} {
+		tt := t
+		rel(fmt.Sprintf("tiny-%d-%d-%d-%d", t[0], t[1], t[2], t[3]), func(s *sess) {
+			for i := range s.k {
+				s.k[i] = big.NewInt(tt[i])
+			}
+		})
+	}
 	// g) everything random
 	for i := 0; i < nRandom; i++ {
 		g.session("sess:random", g.rnd())
